@@ -157,6 +157,7 @@ type runner struct {
 	recreated int64
 	diagRet   string
 	soft      []*violation // judged wrong, but the store's state is unaffected: reported, history continues
+	crashes   int          // "crash" events so far in this history (bound: one per history)
 }
 
 func (r *runner) opts() *chain.BlockDBOpts {
@@ -378,6 +379,37 @@ func (r *runner) diagnose() {
 func (r *runner) reopen() *violation {
 	r.db.Close()
 	r.noteMaxDat() // Close flushes the queue and may roll over to a new data file
+	return r.reopenClosed()
+}
+
+// crash: the process dies while the last queued block is being flushed, after its bytes
+// have reached the data file and before its index record is written (writeOne writes the
+// data first). Realised on the files a clean Close leaves: the last 136-byte record of
+// blockchain.new - the record of that block, records are only ever appended - is cut off
+// again; the block's bytes stay in the data file, beyond every indexed position. The block
+// was never acknowledged as stored: the model forgets it. At most one crash per history.
+func (r *runner) crash() *violation {
+	i := r.queue[len(r.queue)-1]
+	r.db.Close()
+	r.noteMaxDat()
+	idx := r.dir + "blockchain.new"
+	raw, err := os.ReadFile(idx)
+	if err != nil {
+		ev.HarnessError("crash: %v", err)
+	}
+	r.crashes++
+	if n := len(raw); n >= 136 && n%136 == 0 && bytes.Equal(raw[n-80:], blocks[i].raw[:80]) {
+		if err := os.Truncate(idx, int64(n-136)); err != nil {
+			ev.HarnessError("crash: %v", err)
+		}
+		r.m[i] = mblk{}
+	}
+	// otherwise the index does not end with the record of the block flushed last: nothing
+	// is cut and the event is a plain restart (what the index then lists is judged as usual)
+	return r.reopenClosed()
+}
+
+func (r *runner) reopenClosed() *violation {
 	l := r.open()
 	r.queue = nil
 	for i := range r.m {
@@ -454,6 +486,9 @@ func (r *runner) step(e string) *violation {
 	}
 	if e == "reopen" {
 		return r.reopen()
+	}
+	if e == "crash" {
+		return r.crash()
 	}
 	if len(e) < 4 {
 		ev.HarnessError("bad event %q", e)
@@ -538,13 +573,19 @@ func (r *runner) enabled() []string {
 			l = append(l, fmt.Sprintf("tru%d", i), fmt.Sprintf("inv%d", i))
 		}
 	}
-	return append(l, "idle", "reopen")
+	l = append(l, "idle", "reopen")
+	if n := len(r.queue); n > 0 && r.crashes == 0 {
+		if m := r.m[r.queue[n-1]]; m.St == present && m.Queued {
+			l = append(l, "crash")
+		}
+	}
+	return l
 }
 
 func (r *runner) key() string {
 	st := r.db.VerifState()
 	r.noteMaxDat()
-	b, _ := json.Marshal([]interface{}{r.m, r.queue, st, r.diag != "", r.maxDat, r.recreated})
+	b, _ := json.Marshal([]interface{}{r.m, r.queue, st, r.diag != "", r.maxDat, r.recreated, r.crashes})
 	h := sha256.Sum256(b)
 	return hex.EncodeToString(h[:12])
 }
